@@ -256,6 +256,61 @@ func ruleFORMAT1(c *Ctx) {
 		}
 		c.Oblige("reformat:number-shortcut-guard", f.Pos(), okNum, "the verbatim number shortcut is not guarded by !Flags.Get(CanonicalizeNumbers)")
 	}
+	// in ReformatNumber a verbatim copy of src[:n] may only be decided by a length test on that same n
+	if f := p.Func("jsonwire.ReformatNumber"); f == nil || f.Body() == nil {
+		c.Undecide("jsonwire.ReformatNumber", "function missing")
+	} else {
+		info := f.Info()
+		nCopy := 0
+		for _, ifs := range findAll[*ast.IfStmt](f.Body()) {
+			var copied types.Object
+			for _, call := range findAll[*ast.CallExpr](ifs.Body) {
+				if IsBuiltin(info, call, "append") && len(call.Args) == 2 && call.Ellipsis != token.NoPos {
+					if sl, ok := ast.Unparen(call.Args[1]).(*ast.SliceExpr); ok && sl.Low == nil && sl.High != nil {
+						copied = IdentObj(info, sl.High)
+					}
+				}
+			}
+			if copied == nil {
+				continue
+			}
+			var tested []types.Object
+			ast.Inspect(ifs.Cond, func(nd ast.Node) bool {
+				be, ok := nd.(*ast.BinaryExpr)
+				if !ok {
+					return true
+				}
+				switch be.Op {
+				case token.LSS, token.LEQ, token.GTR, token.GEQ:
+					for _, pair := range [][2]ast.Expr{{be.X, be.Y}, {be.Y, be.X}} {
+						if tv, ok := info.Types[pair[1]]; ok && tv.Value != nil {
+							if o := IdentObj(info, pair[0]); o != nil {
+								tested = append(tested, o)
+							}
+						}
+					}
+				}
+				return true
+			})
+			if len(tested) == 0 {
+				continue
+			}
+			nCopy++
+			okLen := true
+			var names []string
+			for _, o := range tested {
+				if o != copied {
+					okLen = false
+					names = append(names, o.Name())
+				}
+			}
+			c.Oblige(fmt.Sprintf("number-verbatim-length#%d", nCopy), ifs.Pos(), okLen,
+				"the verbatim copy of src[:"+copied.Name()+"] is decided by a length test on `"+strings.Join(names, ", ")+"` instead of on the number of bytes copied (a long literal can slip through)")
+		}
+		if nCopy == 0 {
+			c.Undecide("jsonwire.ReformatNumber/verbatim-copy", "no length-guarded verbatim copy found")
+		}
+	}
 	// WriteValue reorders for both container kinds
 	if f := p.Func("jsontext.(*encoderState).WriteValue"); f == nil || f.Body() == nil {
 		c.Undecide("jsontext.(*encoderState).WriteValue", "function missing")
